@@ -260,6 +260,20 @@ def gen_c05(tier, seed, stream, k):
     cfg["entry"] = "opt_primal"   # forces the rational-simplex iteration bound into the parameter lines
     L = model.script_any(m, "p0", rnd) + sf.param_lines(cfg, "p0")
     kinds = [kw for kw in gen_hist.EDIT_KINDS]
+    if stream == "pattern" and k % 3 == 2 and m.ncols:
+        # a range row that caps the objective: after the solve its logical is nonbasic at the *upper* end of the range; the row is
+        # then re-typed (the stored basis keeps the at-upper mark of the former range row) and the history goes on
+        s_ = F(m.objsense)
+        coefs = [(j, c.obj if c.obj != 0 else F(1)) for j, c in enumerate(m.cols)][:4]
+        cap = F(rnd.randint(-5, 20))
+        # MAX (-1): c.x <= cap is the active side -> range [cap - w, cap];  MIN (+1): c.x >= cap active -> range [cap, cap + w]
+        wdt = F(rnd.randint(1, 6))
+        op = ("add_ranged_row", cap - wdt if s_ < 0 else cap, "R", wdt, nm.row(rnd, 0), coefs)
+        m.apply(op)
+        L += [render(op), rnd.choice(SOLVES), "dumpsol p0"]
+        op = ("change_sense", m.nrows - 1, rnd.choice("LGE"))
+        m.apply(op)
+        L += [render(op), "dumpsol p0"]
     blocks = rnd.randint(2, 5) if stream != "pattern" else 2
     if rnd.random() < 0.7 and m.nrows:
         L += [rnd.choice(SOLVES), "dumpsol p0"]
